@@ -575,7 +575,11 @@ CHECKS["C07"] = {
         {"name": "clock", "exe": "c07_repro", "sources": ["c07_repro.cpp"], "sub": "clock", "shards": 8, "pin": True},
         {"name": "threads", "exe": "c07_repro", "sources": ["c07_repro.cpp"], "sub": "threads", "shards": 32, "pin": True},
         {"name": "sess", "exe": "c07_repro", "sources": ["c07_repro.cpp"], "sub": "sess", "shards": 8},
+        {"name": "notify", "exe": "c07_notify", "sources": ["c07_notify.cpp"], "shards": 4},
     ],
+    "rule_keyed": "notify part: graphs that register before/after-evaluation notifications (G, H), a graph whose notification callback throws (F) and one whose node "
+                  "throws after registering a callback (E), x 2 inputs; every history of <= 4 (5) runs in one process and thread: each run's outputs, executed callbacks and "
+                  "error text equal the same graph run alone at start-up - a failing run leaves nothing behind.",
     "rule": "clock part also runs a long immediate chain (1100 / 1500 consecutive smallest-step cycles, explicit end time, virtual wall clock far past it, one clock jump at every position) with an absolute oracle: the run reaches the end of its schedule. sess part: one GlobalContext session (caller-owned GlobalState, copy-back after each run, as the testing harness does) in which every sequence of <= L runs over {PlusSeven, TimesTen} x {cycle-aligned, (time, delta)} harness recorder x 2 inputs is executed under one recording key; each run must record exactly what the same graph records alone in a fresh session. 11 self-contained programs x 2 inputs (two programs that differ only in a parameter of an interned type - a duration window with the same range and different warm-up; node State accumulator + dense record; a node counting in GlobalState; map_ with stateful "
             "children; switch_; reduce_; feedback loop; nested graph with a clock-reading node; replay -> record; the GlobalState program wired and "
             "run under a GlobalContext with a seeded caller-owned state). Scripts are scalars and observations are appended to the run's own global "
